@@ -56,9 +56,12 @@ def decodeAst (s : String) : Option Node :=
   | some (some n, []) => some n
   | _ => none
 
+/-- `<code-hex>=<ast>` or `<code-hex>=#<replacement-hex>`: split at the FIRST '=' only — the tree text contains
+    '=' whenever the embedded code has a node named `:=`, `==`, `>=`, `<=` or `!=` -/
 def decodeInterp (s : String) : Option (List Nat × InterpEntry) :=
   match s.splitOn "=" with
-  | [code, rest] => do
+  | code :: r1 :: more => do
+    let rest := "=".intercalate (r1 :: more)
     let code ← hexDecode code
     if rest.startsWith "#" then
       let r ← hexDecode (rest.drop 1).toString
